@@ -434,6 +434,9 @@ def _converted(prog, f, c, depth):
     for m in f.calls:
         if m.name == 'map_err' and m.args and op_local(m.args[0]) in carry:
             for a in m.args[1:]:
+                k = op_const(a)
+                if k and 'fn' in k and 'into_bincode_if_unexpected_eof' in ((k['fn'].get('res') or '') + (k['fn'].get('path') or '')):
+                    return True
                 l = op_local(a)
                 if l is not None and f.locals[l].get('h') == 'closure' and any(x.name == 'into_bincode_if_unexpected_eof' for x in prog.fns[f.locals[l]['a'][0]].calls):
                     return True
